@@ -298,6 +298,16 @@ fn pack_values_from_offsets_impl<K: ArrowDictionaryKeyType, V: OffsetSizeTrait>(
     let mut unique_offsets: Vec<V> = Vec::with_capacity(num_values + 1);
     unique_offsets.push(V::default());
     let mut unique_bytes: Vec<u8> = Vec::with_capacity(offset_buffer.values.len());
+    // Null slots are stored as empty byte strings; a fixed size dictionary value needs
+    // `size` bytes for them as well
+    let fixed_size = match value_type {
+        ArrowType::FixedSizeBinary(size) => Some(*size as usize),
+        _ => None,
+    };
+    let push_bytes = |unique_bytes: &mut Vec<u8>, bytes: &[u8]| match fixed_size {
+        Some(size) if bytes.len() != size => unique_bytes.resize(unique_bytes.len() + size, 0),
+        _ => unique_bytes.extend_from_slice(bytes),
+    };
 
     let mut dedup: HbHashMap<u64, (usize, usize), BuildPassthroughHasher> =
         HbHashMap::with_capacity_and_hasher(num_values, BuildPassthroughHasher);
@@ -338,7 +348,7 @@ fn pack_values_from_offsets_impl<K: ArrowDictionaryKeyType, V: OffsetSizeTrait>(
                         Some(collision_output_idx) => collision_output_idx,
                         None => {
                             let new_output_idx = unique_offsets.len() - 1;
-                            unique_bytes.extend_from_slice(bytes);
+                            push_bytes(&mut unique_bytes, bytes);
                             let new_end = V::from_usize(unique_bytes.len()).ok_or_else(|| {
                                 general_err!("offset overflow building dictionary")
                             })?;
@@ -351,7 +361,7 @@ fn pack_values_from_offsets_impl<K: ArrowDictionaryKeyType, V: OffsetSizeTrait>(
             }
             Entry::Vacant(entry) => {
                 let output_idx = unique_offsets.len() - 1;
-                unique_bytes.extend_from_slice(bytes);
+                push_bytes(&mut unique_bytes, bytes);
                 let new_end = V::from_usize(unique_bytes.len())
                     .ok_or_else(|| general_err!("offset overflow building dictionary"))?;
                 unique_offsets.push(new_end);
@@ -371,9 +381,13 @@ fn pack_values_from_offsets_impl<K: ArrowDictionaryKeyType, V: OffsetSizeTrait>(
     // monotonically non-decreasing and bounded by unique_bytes.len(), and all
     // key values are within 0..num_unique, so the invariants Arrow requires hold.
     let value_data = unsafe {
-        arrow_data::ArrayData::builder(value_type.clone())
-            .len(num_unique)
-            .add_buffer(Buffer::from_vec(unique_offsets))
+        let builder = arrow_data::ArrayData::builder(value_type.clone()).len(num_unique);
+        let builder = match value_type {
+            // fixed size values are stored back to back, without an offsets buffer
+            ArrowType::FixedSizeBinary(_) => builder,
+            _ => builder.add_buffer(Buffer::from_vec(unique_offsets)),
+        };
+        builder
             .add_buffer(Buffer::from_vec(unique_bytes))
             .build_unchecked()
     };
